@@ -8,6 +8,7 @@ use vstd::std_specs::cmp::*;
 use std::sync::Arc;
 use std::io;
 use std::cmp;
+use std::fmt::{self, Debug};
 use std::io::{ErrorKind, SeekFrom};
 use std::num::TryFromIntError;
 use std::convert::{TryFrom, TryInto};
